@@ -729,7 +729,58 @@ type emitter struct {
 	n       int
 }
 
+// F18 (found in round 10, repair: patches/encrypt/0009): a nil element of a []interface{} held by a map makes Process panic on a
+// tree without the repair.  The driver asks the tree under test once; where it still panics, the cases that contain such an
+// element are held back (counted in the summary as "held-back:nil-element-F18") - everything else about mixed slices runs.
+var nilElemsOK = true
+
+func probeNilElement() (ok bool) {
+	defer func() {
+		if recover() != nil {
+			ok = false
+		}
+	}()
+	f := mkFilter(Cfg{Wrap: "ok"})
+	_, _ = f.Process(context.Background(), &el.Event{Type: "t", CreatedAt: fixedTime, Payload: map[string]interface{}{"k1": []interface{}{"x", nil}}})
+	return true
+}
+
+func hasNilIf(v *V) bool {
+	if v == nil {
+		return false
+	}
+	if v.K == "nilif" {
+		return true
+	}
+	for _, f := range v.Fields {
+		if hasNilIf(f.V) {
+			return true
+		}
+	}
+	for _, x := range v.Elems {
+		if hasNilIf(x) {
+			return true
+		}
+	}
+	for _, x := range v.Vals {
+		if hasNilIf(x) {
+			return true
+		}
+	}
+	return hasNilIf(v.Elem)
+}
+
 func (e *emitter) emit(c Case) {
+	if !nilElemsOK {
+		held := hasNilIf(c.V)
+		for i := 0; i <= c.Step && i < len(c.Hist); i++ {
+			held = held || hasNilIf(c.Hist[i].V)
+		}
+		if held {
+			e.stats["held-back:nil-element-F18"]++
+			return
+		}
+	}
 	e.n++
 	c.ID = e.n
 	r := execCase(c)
@@ -1108,6 +1159,7 @@ func main() {
 		panic(err)
 	}
 	e := &emitter{cf: cf, side: side, stats: map[string]int{}, seen: map[string]bool{}}
+	nilElemsOK = probeNilElement()
 	r := hc.NewRand(hc.Seed())
 	if *corpus != "" {
 		runCorpus(e, *corpus)
@@ -1150,6 +1202,7 @@ func main() {
 	summary["distinct_nontrivial"] = e.nontriv
 	summary["panics"] = e.panics
 	summary["seed"] = hc.Seed()
+	summary["nil_element_in_a_slice_held_by_a_map"] = map[bool]string{true: "handled", false: "Process PANICS (F18; repair: patches/encrypt/0009): the cases with such an element were held back"}[nilElemsOK]
 	js, _ := json.MarshalIndent(summary, "", " ")
 	os.WriteFile(*out+"/"+*prefix+"_summary.json", js, 0o644)
 	fmt.Printf("encrypth: %d cases in %d files, %d panics\n", cf.Total, len(cf.Files), len(e.panics))
